@@ -233,6 +233,8 @@ def record_classes(sp) -> List[Tuple[str, str, bool, bool]]:
         ("ATOM", pdb_line(sp, "ATOM", ATOM_FIELDS), True, True),
         ("HETATM", pdb_line(sp, "HETATM", ATOM_FIELDS), True, True),
         ("HETATM with a 5-digit serial", pdb_line(sp, "HETATM", big), True, True),
+        ("ATOM with alternate location B", pdb_line(sp, "ATOM", dict(ATOM_FIELDS, altLoc="B")), True, True),
+        ("ATOM with a blank alternate location", pdb_line(sp, "ATOM", dict(ATOM_FIELDS, altLoc=" ")), True, True),
         ("ANISOU", pdb_line(sp, "ANISOU", ATOM_FIELDS), False, True),
         ("TER", "TER     418        G B -12C".ljust(80), False, True),
         ("MODEL", "MODEL        2".ljust(80), False, True),
@@ -264,7 +266,9 @@ class V1Reader:
 
     def read(self, lines: List[str]) -> List[Dict[str, Any]]:
         """decoded atoms as flat dicts: Atom fields, with the author identity spread as auth.<field>"""
-        res = self.call(Lines(l + "\n" for l in lines))
+        f = TextFile([l + "\n" for l in lines])
+        f.pos = len(f.lines)  # a handle that was read to its end before (is_cif(f) comes first): the reader has to rewind it
+        res = self.call(f)
         atoms = res[0] if isinstance(res, tuple) else res
         out = []
         for a in atoms:
@@ -312,7 +316,7 @@ def v2_decode(repo, line: str, model: int = 1) -> Tuple[Optional[Dict[str, Any]]
     """(record appended by the line loop of parser_v2.parse_pdb_atoms for this line or None, current model afterwards); raises Unknown."""
     b, loop = _v2_loop(repo)
     if loop is None:
-        raise Unknown("line loop of parse_pdb_atoms not found")
+        return _v2_decode_whole(repo, line)  # the line loop lives elsewhere (a helper, a generator): the whole reader is interpreted
     env: Dict[str, Any] = {loop.target.id: line, "current_model": model}
     for c in astq.calls(loop, "append"):
         if isinstance(c.func.value, ast.Name):
@@ -322,6 +326,28 @@ def v2_decode(repo, line: str, model: int = 1) -> Tuple[Optional[Dict[str, Any]]
     ev.run(loop.body)
     got = [v for k, v in ev.env.items() if isinstance(v, list) and v and isinstance(v[0], dict)]
     return (got[0][0] if got else None), ev.env.get("current_model")
+
+
+_V2_READERS: Dict[int, Any] = {}
+
+
+def _v2_decode_whole(repo, line: str) -> Tuple[Optional[Dict[str, Any]], Any]:
+    """v2_decode through parse_pdb_atoms as a whole: the row the line becomes (None: no row), and the model an atom line that
+    follows it gets."""
+    from sa.frame import isna
+
+    rd = _V2_READERS.get(id(repo))
+    if rd is None:
+        rd = _V2_READERS[id(repo)] = V2Reader(repo)
+    try:
+        t = rd.read([line])
+        rec = {c: (None if isna(v[0]) else v[0]) for c, v in t._cols.items()} if len(t.index) == 1 else None
+        probe = "ATOM  " + probe_pair("ATOM")[0][6:]
+        t2 = rd.read([line, probe])
+        model = t2._cols["model"][len(t2.index) - 1] if len(t2.index) and "model" in t2._cols else None
+        return rec, (None if model is None or isna(model) else int(model))
+    except Raised as ex:
+        raise Unknown(f"parse_pdb_atoms raises {ex.name} on a probe line")
 
 
 def v2_columns(repo, sp) -> Optional[Dict[str, Optional[Tuple[int, int]]]]:
@@ -689,6 +715,24 @@ def report_silent_exits(chk, rule: str, fis, cov: set, what: str, consequence: D
     the representatives cover the classes it names) that is a violation, reported with the condition.  Returns the number reported."""
     from sa.fragment import one_way_emissions, unreached_exits
 
+    # the first function is the one the rule evaluated; the others count only when it reaches them (by name, through functions of its
+    # module): coverage is shared, and a helper that some other evaluation ran on other input says nothing here
+    if fis:
+        entry = fis[0]
+        funcs = entry.module.funcs
+        seen, todo = set(), [entry.node]
+        while todo:
+            node = todo.pop()
+            for c in ast.walk(node):
+                nm = None
+                if isinstance(c, ast.Call):
+                    nm = c.func.id if isinstance(c.func, ast.Name) else (c.func.attr if isinstance(c.func, ast.Attribute) else None)
+                elif isinstance(c, ast.Name) and isinstance(c.ctx, ast.Load):
+                    nm = c.id
+                if nm and nm in funcs and nm not in seen:
+                    seen.add(nm)
+                    todo.append(funcs[nm].node)
+        fis = [entry] + [g for g in fis[1:] if g.node.name in seen and g is not entry]
     n = 0
     for fi in fis:
         data = [a.arg for a in fi.node.args.args[:1]]
@@ -920,7 +964,9 @@ class V2Reader:
         from sa.frame import Frame
 
         doc = [l.rstrip("\n") + "\n" for l in lines]
-        res = self.call("".join(doc)) if as_text else self.call(TextFile(doc))
+        f = TextFile(doc)
+        f.pos = len(doc)  # a handle that was read to its end before (is_cif(f) comes first): the reader has to rewind it
+        res = self.call("".join(doc)) if as_text else self.call(f)
         if not isinstance(res, Frame):
             raise Unknown("parse_pdb_atoms does not return a table")
         return res
@@ -942,7 +988,7 @@ def check_v2_reader_eval(chk) -> bool:
     decoded: Optional[Dict[str, Any]] = None
     fields = dict(ATOM_FIELDS, tempFactor=" 42.17", element=" C", charge="1-", altLoc="A")
     atom_line = pdb_line(sp, "ATOM", fields)
-    classes = [(t, (pdb_line(sp, t.split()[0], fields) if t.split()[0] in ("ATOM", "HETATM", "ANISOU") and "5-digit" not in t else l), y, m) for t, l, y, m in record_classes(sp)]
+    classes = [(t, (pdb_line(sp, t.split()[0], fields) if t.split()[0] in ("ATOM", "HETATM", "ANISOU") and "5-digit" not in t and "alternate" not in t else l), y, m) for t, l, y, m in record_classes(sp)]
     _cov = coverage()
     cov = _cov.__enter__()
     try:
@@ -974,23 +1020,40 @@ def check_v2_reader_eval(chk) -> bool:
         water = pdb_line(sp, "HETATM", dict(fields, resName="HOH", name=" O  ", element=" O"))
         hydrogen = pdb_line(sp, "ATOM", dict(fields, name=" H5'", element=" H"))
         doc = [m(1), atom_line, hydrogen, "TER".ljust(80), water, "ENDMDL".ljust(80), m(2), atom_line, "TER".ljust(80), water, "ENDMDL".ljust(80), "END".ljust(80)]
-        full = rd.read(doc)
-        models = [None if isna(v) else int(v) for v in full._cols.get("model", [])]
-        kinds = list(full._cols.get("record_type", []))
-        if models != [1, 1, 1, 2, 2] or kinds != ["ATOM", "ATOM", "HETATM", "ATOM", "HETATM"]:
-            other.append(f"a file with MODEL 1 (two atoms, TER, a water) and MODEL 2 (one atom, TER, a water) yields records {kinds} of models {models}")
-        nomodel = rd.read([atom_line])
-        if [int(v) for v in nomodel._cols.get("model", []) if not isna(v)] != [1]:
-            other.append(f"without a MODEL record an atom gets model {list(nomodel._cols.get('model', []))}")
-        if nomodel.attrs.get("format") != "PDB":
-            other.append(f"the table is tagged format={nomodel.attrs.get('format')!r}, not 'PDB'")
-        empty = rd.read(["REMARK   1 no atoms here".ljust(80)])
-        if len(empty.index) != 0 or [c for c in sp["atom"] if c not in empty._cols] or "model" not in empty._cols:
+        blank_bad: Dict[str, Any] = {}
+
+        def whole(lines, what):
+            """the table of a document; an exception of the interpreted reader is a finding about the reader, not a failure of the rule"""
+            try:
+                return rd.read(lines)
+            except Unknown:
+                raise
+            except Raised as ex:
+                other.append(f"{what}: parse_pdb_atoms raises {ex.name} (the handle had been read to its end before, as after is_cif(f))")
+            except Exception as ex:
+                other.append(f"{what}: parse_pdb_atoms raises {type(ex).__name__} ({str(ex)[:40]}) (the handle had been read to its end before, as after is_cif(f))")
+            return None
+
+        full = whole(doc, "a file with two models")
+        if full is not None:
+            models = [None if isna(v) else int(v) for v in full._cols.get("model", [])]
+            kinds = list(full._cols.get("record_type", []))
+            if models != [1, 1, 1, 2, 2] or kinds != ["ATOM", "ATOM", "HETATM", "ATOM", "HETATM"]:
+                other.append(f"a file with MODEL 1 (two atoms, TER, a water) and MODEL 2 (one atom, TER, a water) yields records {kinds} of models {models}")
+        nomodel = whole([atom_line], "a file of one atom record")
+        if nomodel is not None:
+            if [int(v) for v in nomodel._cols.get("model", []) if not isna(v)] != [1]:
+                other.append(f"without a MODEL record an atom gets model {list(nomodel._cols.get('model', []))}")
+            if nomodel.attrs.get("format") != "PDB":
+                other.append(f"the table is tagged format={nomodel.attrs.get('format')!r}, not 'PDB'")
+            if len(nomodel.index) == 1:
+                decoded = {c: nomodel._cols[c][0] for c in nomodel._cols}
+        empty = whole(["REMARK   1 no atoms here".ljust(80)], "a file without atom records")
+        if empty is not None and (len(empty.index) != 0 or [c for c in sp["atom"] if c not in empty._cols] or "model" not in empty._cols):
             other.append("a file without atom records does not give an empty table with the PDB columns")
-        if len(nomodel.index) == 1:
-            decoded = {c: nomodel._cols[c][0] for c in nomodel._cols}
-        blank = rd.read([pdb_line(sp, "ATOM", {k: v for k, v in fields.items() if k not in ("altLoc", "iCode", "element", "charge")})])
-        blank_bad = {k: blank._cols[k][0] for k in ("altLoc", "iCode", "element", "charge") if len(blank.index) == 1 and not isna(blank._cols[k][0])} if len(blank.index) == 1 else {"line": "not decoded"}
+        blank = whole([pdb_line(sp, "ATOM", {k: v for k, v in fields.items() if k not in ("altLoc", "iCode", "element", "charge")})], "an atom record with blank optional fields")
+        if blank is not None:
+            blank_bad = {k: blank._cols[k][0] for k in ("altLoc", "iCode", "element", "charge") if len(blank.index) == 1 and not isna(blank._cols[k][0])} if len(blank.index) == 1 else {"line": "not decoded"}
     except Unknown as ex:
         chk.ok("pdb-reader-v2-eval", fi.where, f"parse_pdb_atoms is not evaluable as a whole on representative documents ({str(ex)[:80]}): the line loop is evaluated line by line")
         return False
@@ -1045,9 +1108,29 @@ class _TmpFile:
         return None
 
 
+class NamedFile(TextFile):
+    """An open file on disk: a text handle with a position and the `name` it can be re-opened by."""
+
+    def __init__(self, lines: List[str], name: str):
+        super().__init__(lines)
+        self.name = name
+
+
+class StringIOStub(TextFile):
+    """io.StringIO: a text handle with a position, no name."""
+
+
+CIF_DOC = ["data_representative\n", "#\n", "loop_\n", "_atom_site.<items of the category under test>\n", "<rows of the category under test>\n", "#\n"]
+
+
 class V2CifReader:
-    """parse_cif_atoms interpreted from its ast.  The mmcif library is a stub that hands out the atom_site category as attribute names
-    and rows of strings (what IoAdapterPy does); `pd` is the stand-in of sa/frame.py; temporary files are named buffers."""
+    """parse_cif_atoms interpreted from its ast.  The mmcif library is a stub: `readFile(path)` hands out the atom_site category under
+    test (attribute names and rows of strings, what IoAdapterPy gives) *when the file at that path holds the whole document* - a
+    temporary file holds what was written to it, the path of a named file holds that file from its beginning - and nothing for an
+    empty or truncated text, as the real reader does.  `pd` is the stand-in of sa/frame.py."""
+
+    TMP = "/nonexistent/tmp-representative.cif"
+    DISK = "/nonexistent/representative.cif"
 
     def __init__(self, repo):
         from sa.frame import pd_namespace
@@ -1056,16 +1139,43 @@ class V2CifReader:
         self.fi = repo.func("parser_v2", "parse_cif_atoms")
         self.category: Optional[_Category] = None
         self.reads: List[str] = []
-        reader = Obj("adapter", readFile=lambda path, *a, **k: (self.reads.append(path), [_Container({"atom_site": self.category} if self.category is not None else {})])[1])
+        self.fs: Dict[str, str] = {}
+        me = self
+
+        class Tmp(_TmpFile):
+            name = V2CifReader.TMP
+
+            def __init__(self, *a, **k):
+                super().__init__(*a, **k)
+                me.fs[self.name] = ""
+
+            def write(self, s):
+                if isinstance(s, bytes):
+                    raise TypeError("write() argument must be str, not bytes")
+                me.fs[self.name] = me.fs.get(self.name, "") + s
+                return super().write(s)
+
+        def read_file(path, *a, **k):
+            me.reads.append(path)
+            text = me.fs.get(path)
+            if text is None:
+                raise Raised("FileNotFoundError", f"no file {path}")
+            if text == "".join(CIF_DOC):
+                return [_Container({"atom_site": me.category} if me.category is not None else {})]
+            return []  # an empty or truncated text holds no data block
+
+        reader = Obj("adapter", readFile=read_file)
         env: Dict[str, Any] = {
             "pd": pd_namespace(), "object": object, "bytes": bytes, "str": str, "IoAdapterPy": lambda *a, **k: reader, "IoAdapterCore": lambda *a, **k: reader,
-            "io": Obj("io", StringIO=TextFile), "tempfile": Obj("tempfile", NamedTemporaryFile=_TmpFile), "os": Obj("os", remove=lambda p: None, unlink=lambda p: None, path=Obj("path", exists=lambda p: True)),
+            "io": Obj("io", StringIO=StringIOStub), "tempfile": Obj("tempfile", NamedTemporaryFile=Tmp), "os": Obj("os", remove=lambda p: None, unlink=lambda p: None, path=Obj("path", exists=lambda p: True)),
             "hasattr": lambda o, a: hasattr(o, a),
         }
         env.update(module_callables(repo, "parser_v2", outer=env))
         self.call = func_callable(repo, "parser_v2", self.fi.node, env, max_steps=60000)
 
     def read(self, rows: List[Dict[str, str]], how: str = "text"):
+        """how: text | stringio | file (fresh handles), stringio-read | file-read (handles that were read to their end before - what
+        `is_cif(f)` leaves behind), file-peeked (one line was read)"""
         from sa.frame import Frame
 
         attrs: List[str] = []
@@ -1074,12 +1184,17 @@ class V2CifReader:
                 if k not in attrs:
                     attrs.append(k)
         self.category = _Category(attrs, [[r.get(a, "?") for a in attrs] for r in rows]) if rows else None
+        self.fs = {self.DISK: "".join(CIF_DOC)}
         if how == "text":
-            arg: Any = "data_representative\n#\n"
-        elif how == "stringio":
-            arg = TextFile(["data_representative\n", "#\n"])
+            arg: Any = "".join(CIF_DOC)
+        elif how.startswith("stringio"):
+            arg = StringIOStub(CIF_DOC)
         else:
-            arg = Obj("file", name="/nonexistent/representative.cif", seek=lambda *a: 0, read=lambda: "data_representative\n")
+            arg = NamedFile(CIF_DOC, self.DISK)
+        if how.endswith("-read"):
+            arg.pos = len(CIF_DOC)
+        elif how.endswith("-peeked"):
+            arg.pos = 1
         res = self.call(arg)
         if not isinstance(res, Frame):
             raise Unknown("parse_cif_atoms does not return a table")
@@ -1106,16 +1221,21 @@ def check_cif_atoms_eval(chk) -> bool:
     cov = _cov.__enter__()
     try:
         rd = V2CifReader(repo)
-        for how in ("text", "stringio", "file"):
+        hows = {"text": "the text", "stringio": "a fresh StringIO", "file": "a freshly opened file", "stringio-read": "a StringIO that was read to its end before", "file-read": "an open file that was read to its end before (what `is_cif(f)` leaves behind - the call order of the library's own tools)", "file-peeked": "an open file of which one line was read before"}
+        for how, what in hows.items():
+            used = "-" in how
             try:
                 t = rd.read(CIF_V2_ROWS, how)
             except Raised as ex:
-                bad.setdefault("rows", []).append(f"input as {how}: parse_cif_atoms raises {ex.name}")
+                bad.setdefault("handle" if used else "rows", []).append(f"input as {what}: parse_cif_atoms raises {ex.name}")
                 continue
             except Unknown:
                 raise
             except Exception as ex:
-                bad.setdefault("rows", []).append(f"input as {how}: parse_cif_atoms raises {type(ex).__name__} ({str(ex)[:50]})")
+                bad.setdefault("handle" if used else "rows", []).append(f"input as {what}: parse_cif_atoms raises {type(ex).__name__} ({str(ex)[:50]})")
+                continue
+            if used and len(t.index) != len(CIF_V2_ROWS):
+                bad.setdefault("handle", []).append(f"input as {what}: {len(t.index)} of {len(CIF_V2_ROWS)} atom_site rows are read")
                 continue
             if len(t.index) != len(CIF_V2_ROWS) or [str(v) for v in t._cols.get("id", [])] != [r["id"] for r in CIF_V2_ROWS]:
                 bad.setdefault("rows", []).append(f"input as {how}: atom_site rows with ids {[r['id'] for r in CIF_V2_ROWS]} come back as rows {[str(v) for v in t._cols.get('id', [])]}")
@@ -1151,6 +1271,15 @@ def check_cif_atoms_eval(chk) -> bool:
     with evidence(chk, "null-markers-v2", "cif-table"):
         chk.expect(not bad.get("null"), "null-markers-v2", fi.where, "evaluated: parser_v2 reads both mmCIF null markers (`?` and `.`) as missing values, in every item", "parser_v2 does not treat both `?` and `.` as missing: " + "; ".join(sorted(set(bad.get("null", [])))[:3]), K(fi, "nulls"), found=sorted(set(bad.get("null", [])))[:6])
         chk.expect(not bad.get("rows"), "cif-table", fi.where, "evaluated (text, StringIO and named-file input): every atom_site row becomes a row of the table in file order, every item a column, tagged format='mmCIF'", "atom_site rows are lost, reordered or refused: " + "; ".join(bad.get("rows", [])[:2]), K(fi, "cif-rows"), found=bad.get("rows", [])[:4])
+        chk.expect(
+            not bad.get("handle"),
+            "cif-table",
+            fi.where,
+            "evaluated: a handle that was read before (to its end, or one line) gives the same table as a fresh one - the reader starts at the beginning of the file, not where the handle stands",
+            "what is read depends on where the handle stands: " + "; ".join(bad.get("handle", [])[:2]) + " - the reader takes the text from the current position of the handle instead of from the beginning of the file (the sibling readers rewind first)",
+            K(fi, "cif-handle-position"),
+            found=bad.get("handle", [])[:4],
+        )
         chk.expect(not bad.get("types"), "cif-table", fi.where, "evaluated: coordinates, occupancy and B as numbers, label_seq_id / model / charge as integers (the sign kept), the other items as their text", "items are typed or copied wrongly: " + "; ".join(sorted(set(bad.get("types", [])))[:3]), K(fi, "cif-types"), found=sorted(set(bad.get("types", [])))[:6])
         report_silent_exits(chk, "cif-table", [fi] + new_helpers(repo, "parser_v2"), cov, "atom_site categories", {"continue": "the row (or item) is skipped", "break": "reading stops there", "return": "a table is returned before all rows are read"})
     return True
